@@ -114,10 +114,24 @@ def lean_stage(ctx):
     return ctx.stage("lean", run, build=(ctx.tier != "thorough"))
 
 
+def modfile_args(ctx):
+    """the harness module replaces go-co by /repo; when VERIF_REPO points elsewhere (background sweeps on a
+    snapshot of the repository) build with a go.mod whose replace directive points there"""
+    if os.path.realpath(REPO) == "/repo":
+        return []
+    mf = os.path.join(ctx.bdir, "go.mod")
+    with open(os.path.join(HARNESS, "go.mod")) as f:
+        mod = f.read()
+    with open(mf, "w") as f:
+        f.write(mod.replace("=> /repo", "=> " + os.path.realpath(REPO)))
+    sh(["cp", os.path.join(HARNESS, "go.sum"), os.path.join(ctx.bdir, "go.sum")])
+    return ["-modfile=" + mf]
+
+
 def harness_stage(ctx):
     def run():
         binp = os.path.join(ctx.bdir, "vh")
-        rc, out = sh(["go", "build", "-tags", "verif", "-o", binp, "./cmd/vh"], cwd=HARNESS, env=GOENV, timeout=1200)
+        rc, out = sh(["go", "build"] + modfile_args(ctx) + ["-tags", "verif", "-o", binp, "./cmd/vh"], cwd=HARNESS, env=GOENV, timeout=1200)
         return {"ok": rc == 0, "bin": binp, "output": out[-4000:]}
     return ctx.stage("harness", run, build=True)
 
